@@ -42,6 +42,9 @@ pub fn stack_sprite_on(v: &[usize], cw: u16, chh: u16) -> File {
         if kind == 1 || kind == 2 {
             let mut g = Layer::group(&format!("g{}", i));
             g.flags = if kind == 1 { 3 } else { 2 };
+            // a group's own opacity / blend fields do not take part in the composition the property defines
+            g.opacity = 77;
+            g.blend = 5;
             f.frames[0].push(Body::Layer(g));
             idx += 1;
             level = 1;
@@ -180,17 +183,24 @@ pub fn offsets(ctx: &Ctx, thorough: bool) {
             }
         }
         // canvases beyond 256 pixels in one or both directions, cels around the far edges
-        for (cw, chh) in [(300u16, 3u16), (3, 300), (260, 258)] {
+        for (cw, chh) in [(300u16, 3u16), (3, 300), (260, 258), (65535, 1), (1, 65535)] {
             for (w, h) in [(1u16, 1u16), (2, 3), (5, 4)] {
-                for x in [-1i16, 0, 254, 255, 256, 257, cw as i16 - 2, cw as i16 - 1, cw as i16] {
-                    for y in [-1i16, 0, 254, 255, 256, chh as i16 - 2, chh as i16 - 1, chh as i16] {
+                let far = |e: u16| -> Vec<i16> {
+                    if e > 32767 {
+                        vec![-1, 0, 255, 256, 32766, 32767]
+                    } else {
+                        vec![-1, 0, 254, 255, 256, 257, e as i16 - 2, e as i16 - 1, e as i16]
+                    }
+                };
+                for x in far(cw) {
+                    for y in far(chh) {
                         cases.push((cw, chh, w, h, x, y, fi));
                     }
                 }
             }
         }
     }
-    ctx.family(fam, cases.len() as u64, "single layer over a backdrop layer on canvases 3x2, 2x4, 1x3, 4x1, 2x7 (landscape and portrait): cel sizes {1,2,3,5}^2 at every offset in [-w-1,W+1]x[-h-1,H+1] plus the i16 extremes; 65535x1 / 1x65535 / 300x200 cels; canvases 300x3, 3x300, 260x258 with cels around x,y = 255/256 and the far edges; raw and compressed", true);
+    ctx.family(fam, cases.len() as u64, "single layer over a backdrop layer on canvases 3x2, 2x4, 1x3, 4x1, 2x7 (landscape and portrait): cel sizes {1,2,3,5}^2 at every offset in [-w-1,W+1]x[-h-1,H+1] plus the i16 extremes; 65535x1 / 1x65535 / 300x200 cels; canvases 300x3, 3x300, 260x258, 65535x1, 1x65535 with cels around x,y = 255/256 and the far edges (or the i16 limit); raw and compressed", true);
     let fmts = [Fmt::Rgba, Fmt::Gray, Fmt::Indexed(0)];
     let want = Want::all();
     cases.par_iter().for_each(|(cw, chh, w, h, x, y, fi)| {
